@@ -656,7 +656,7 @@ class StubsStringGenerator:
         docstring = self._create_sds_docstring(enum_data.docstring, "")
 
         # Signature
-        enum_signature = f"{docstring}enum {enum_data.name}"
+        enum_signature = f"{docstring}enum {_replace_if_safeds_keyword(enum_data.name)}"
 
         # Enum body
         enum_text = ""
